@@ -9,6 +9,7 @@ CONSTANTS
   WM = 8
   ConstructSlots <- Slots2
   Unbounded = TRUE
+  ViewIds <- NoViews
   Ops <- CoreOps
 INVARIANTS TypeOK Refines NoAlias NoUseAfterFree NoDoubleFree NoLeak ConfigKept RoundTrip
 PROPERTIES SourceUnchanged
